@@ -200,6 +200,9 @@ def life (cmd : String) (args : List String) : Option String :=
     let cap ← cap.toNat?
     some (lifeRun cap toks)
   | "lifejudge", _ => some "*"
+  -- C06: whatever the hostile session was, the expected observable is that the server process is
+  -- alive and that a bystander and a fresh connection are served
+  | "c06", _ => some "ok"
   | _, _ => none
 
 end G9.Driver
